@@ -79,7 +79,10 @@ def drive_script(sc):
     DesignPlugin.design = DESIGN
     pm = graddrive.manager()
     pm.add_plugin("optimizer", "rvscript", ScriptPlugin())
-    script = [{"f": "f" in it["kind"], "g": "g" in it["kind"], "x": xf(it["pt"], mask)} for it in sc["script"]]
+    # one-row matrices where the library accepts them: always before a nested run, else for function-only requests
+    as_row = lambda it: bool(sc.get("row")) and (sc["nested"] or it["kind"] == "f")  # noqa: E731
+    script = [{"f": "f" in it["kind"], "g": "g" in it["kind"], "x": None if as_row(it) else xf(it["pt"], mask),
+               "batch": [xf(it["pt"], mask)] if as_row(it) else None} for it in sc["script"]]
     cfg = base_config(sc, "rvscript/script")
     cfg["optimizer"]["options"] = {"script": script}
     ctx = OptimizerContext(evaluator=rec.evaluator, plugin_manager=pm)
@@ -202,7 +205,11 @@ def drive_real(sc):
         cfg["optimizer"].update({"parallel": bool(sc.get("parallel")), "options": {"seed": 1, "popsize": 2, "maxiter": 2}})
     if sc.get("sampler"):
         cfg["samplers"] = [{"method": sc["sampler"]}]
-    if sc.get("two"):
+    if sc.get("two") == "fixedonly":      # a sampler that is assigned fixed variables only
+        cfg["samplers"] = [{"method": "norm"}, {"method": "uniform"}, {"method": sc.get("third", "norm")}]
+        free = [i for i, m in enumerate(mask) if m]
+        cfg["gradient"]["samplers"] = [(free.index(i) % 2 if m else 2) for i, m in enumerate(mask)]
+    elif sc.get("two"):
         cfg["samplers"] = [{"method": "norm"}, {"method": "uniform"}]
         free = [i for i, m in enumerate(mask) if m]
         cfg["gradient"]["samplers"] = [(free.index(i) % 2 if m else 0) for i, m in enumerate(mask)]
@@ -242,6 +249,8 @@ def extra_scenarios(tier, seed):
             if kw.get("two") and sum(mask) < 2:
                 continue
             out.append({"real": True, "mask": mask, "method": method, **kw})
+        for third in ("norm", "uniform", "truncnorm"):
+            out.append({"real": True, "mask": mask, "method": "slsqp", "two": "fixedonly", "third": third})
     return out
 
 
